@@ -634,6 +634,9 @@ def run_unit(name, repo_root=None, want_canaries=True, timeout_ms=None):
             # a canary that stays unrefuted makes the unit an error (vacuity guard): before that, once more with six times
             # the wall-clock budgets (on a loaded machine the 5-10 s queries of the first pass time out)
             found.update(_concrete_search(udef, repo, dim_names, left, out, everything=False, scale=6))
+            left = set(canaries) - set(found)
+            if left:    # (pathological load only: e.g. twenty checks started at once on sixteen cores)
+                found.update(_concrete_search(udef, repo, dim_names, left, out, everything=False, scale=40))
         if thorough:
             out["crosschecked"] = len(need)
             for n, rp in found.items():
